@@ -705,3 +705,29 @@ package core
 //@   call downloadBundleEntrySync#1 bind fetched = $ret0
 //@   loop 1 invariant [found-means-fetched] foundFile ==> fetched_set
 //@   ensures [absent-is-an-error] result == nil ==> fetched_set
+
+// ---- update in place: the destination's metadata becomes the target bundle's (C05) ------------------
+// after the data files were brought in line, the previous bundle's descriptor and file lists found in the
+// destination are removed and the target bundle's metadata is published there
+//@ func unpackDataFiles
+//@   requires bundle != nil
+//@   call downloadBundleEntries#1 assert [same-bundles-and-selection] $bundle == bundle && $bundleDest == bundleDest
+//@   call getConsumableStoreMetadataKeysInfo#1 assert [of-destination] $bundle == bundleDest
+//@   call getConsumableStoreMetadataKeysInfo#1 bind found = $ret0
+//@   call Delete#1 assert [previous-descriptor] bundleDest != nil && found_set && $key == found.descriptor
+//@   call Delete#2 assert [previous-file-lists] bundleDest != nil && $key == filelist
+//@   call Delete#1 bind d1 = $ret0
+//@   call PublishMetadata#1 assert [target-bundle-into-destination] bundleDest != nil && $bundle == publishMetadataBundle
+//@   call PublishMetadata#1 bind pe = $ret0
+//@   ensures [propagate] ((d1_set && d1 != nil) || (pe_set && pe != nil)) ==> result != nil
+
+// ---- listing labels in batches (C08: "listing returns exactly the live labels") -------------------------
+// a batch handed to the consumer is a slice of its own: it is allocated by the fetch of that batch and
+// never written again once sent (the fetcher goes on with the next batch while the consumer still reads it)
+//@ func fetchLabelBatch
+//@   loop 2 invariant [own-batch] fresh(lbs)
+//@   ensures [own-batch] ret1 == nil ==> fresh(ret0)
+//@ func fetchLabels
+//@   call fetchLabelBatch#1 assert [of-these-keys] $keys == keyBatch.keys && $repo == repo
+//@   call fetchLabelBatch#1 bind fetched = $ret0
+//@   send batchChan#4 assert [the-batch-just-fetched] fetched_set && $val.labels == fetched && $val.err == nil
